@@ -511,14 +511,26 @@ def consumeDigits (base : Nat) : Nat → Bytes → Bytes × Bytes
   | 0, src => ([], src)
   | fuel + 1, src =>
     let src1 := match src with
-      | 0x5F :: t => t
-      | _ => src
+      | b :: t => if b = 0x5F then t else src
+      | [] => src
     match src1 with
     | b :: t => if digitSet base b then
         let (ds, r) := consumeDigits base fuel t
         (b :: ds, r)
       else ([], src1)
     | [] => ([], src1)
+
+/-- the base prefix test at the start of `numberLiteral`: `(base, lower-case letter)` -/
+def lexPrefix (d0 : UInt8) (rest : Bytes) : Option (Nat × UInt8) :=
+  if d0 = 0x30 then
+    match rest with
+    | b1 :: _ =>
+      let l := lowerByte b1
+      if l = 0x78 then some (16, 0x78) else if l = 0x64 then some (12, 0x64)
+      else if l = 0x6F then some (8, 0x6F) else if l = 0x71 then some (4, 0x71)
+      else if l = 0x62 then some (2, 0x62) else none
+    | [] => none
+  else none
 
 /-- `numberLiteral` for integer literals without suffix: the INT token's value (lexeme with a
 lower-case prefix and without underscores) when the literal is the whole source. -/
@@ -527,17 +539,7 @@ def lexInt (src : Bytes) : Option Bytes :=
   | d0 :: rest =>
     if ¬ (0x30 ≤ d0.toNat ∧ d0.toNat ≤ 0x39) then none
     else
-      let pre : Option (Nat × UInt8) :=
-        if d0 = 0x30 then
-          match rest with
-          | b1 :: _ =>
-            let l := lowerByte b1
-            if l = 0x78 then some (16, 0x78) else if l = 0x64 then some (12, 0x64)
-            else if l = 0x6F then some (8, 0x6F) else if l = 0x71 then some (4, 0x71)
-            else if l = 0x62 then some (2, 0x62) else none
-          | [] => none
-        else none
-      match pre with
+      match lexPrefix d0 rest with
       | some (base, letter) =>
         let (ds, r) := consumeDigits base (rest.length + 1) (rest.drop 1)
         if r = [] then some (d0 :: letter :: ds) else none
@@ -557,7 +559,7 @@ def readIntLit (src : Bytes) : Option Int :=
 /-- evaluate `inspect` output of an Int: optional unary minus applied to a literal -/
 def readInt (src : Bytes) : Option Int :=
   match src with
-  | 0x2D :: rest => (readIntLit rest).map (fun v => -v)
-  | _ => readIntLit src
+  | b :: rest => if b = 0x2D then (readIntLit rest).map (fun v => -v) else readIntLit src
+  | [] => readIntLit src
 
 end Elk.Inspect
